@@ -1013,8 +1013,10 @@ func sanitize(s string) string {
 // assertion label (or any panic, for panic violations) is observed.
 func (r *runner) replay(h *harnessRun, model map[string]uint64, params map[string]int, events []string, label, knownID string) (bool, string) {
 	ok, msg := r.replayOnce(h, model, params, events, label)
-	// a recorded schedule is followed natively by timing-based gating; give it three tries
-	for try := 1; !ok && len(events) > 0 && try < 3; try++ {
+	// a recorded schedule is followed natively by timing-based gating, and code that ranges over
+	// a Go map runs in a different order natively: a counterexample is confirmed by any native
+	// run that shows the same failure, so a miss is retried a few times
+	for try := 1; !ok && try < 5; try++ {
 		ok, msg = r.replayOnce(h, model, params, events, label)
 	}
 	return ok, msg
